@@ -1,7 +1,8 @@
 import OVM.Status.Spec
 /-
   M — mechanism model of `StatusAttrib::garbage_collection`
-  (src/OpenVolumeMesh/Attribs/StatusAttribT_impl.hh:45-135, StatusAttrib.cc:146-153), on top of
+  (src/OpenVolumeMesh/Attribs/StatusAttribT_impl.hh:45-140, StatusAttrib.cc:147-154; the `#if 0` block
+  impl.hh:142-455 is dead code), on top of
   the kernel model `OVM.Kernel`.
 
   The status properties are ordinary property columns of the kernel (`vertex_status`, …,
@@ -9,21 +10,21 @@ import OVM.Status.Spec
   so `status[h].deleted()` is bit 0 of the slot.
 
   Control flow of the C++ (impl.hh line numbers):
-    56-57   remember the deferred flag, switch deferred deletion on
-    58-77   four range-for loops over the *not deleted* vertices / edges / faces / cells
+    57-58   remember the deferred flag, switch deferred deletion on
+    59-78   four range-for loops over the *not deleted* vertices / edges / faces / cells
             (entity iterators skip deleted slots at every `++`): a marked one is handed to
             `delete_vertex / delete_edge / delete_face / delete_cell`, which in deferred mode flag
             the whole upward closure and unlink it from the incidence caches
-    80-98   `_preserveManifoldness`: enable all three incidence kinds (recomputed from the live
+    81-98   `_preserveManifoldness`: enable all three incidence kinds (recomputed from the live
             definitions where they were off), then delete every face whose two halffaces have no
             incident cell, every edge of valence 0, every vertex of valence 0 – in that order,
             reading the caches that the preceding deletions have already updated
-    99-131  if any handle is tracked: four anonymous `int` properties (vertex, halfedge, halfface,
+    99-133  if any handle is tracked: four anonymous `int` properties (vertex, halfedge, halfface,
             cell) are filled with the current indices, `collect_garbage()` moves them with the
             entities, the arrays `new_*[old] = new` are scattered from them (default: invalid), and
             every valid tracked handle `h` is replaced by `new_*[h.idx()]`
-    133     otherwise just `collect_garbage()`
-    136     restore the deferred flag (leaving deferred mode would collect again: nothing pending)
+    136     otherwise just `collect_garbage()`
+    139     restore the deferred flag (leaving deferred mode would collect again: nothing pending)
 -/
 namespace OVM.Status
 open OVM OVM.Kernel
@@ -52,37 +53,37 @@ def marksOf (k : Kernel) : Marks :=
   { v := (List.range k.nV).map (markedV k), e := (List.range k.nE).map (markedE k),
     f := (List.range k.nF).map (markedF k), c := (List.range k.nC).map (markedC k) }
 
-/-- impl.hh:58-62.  `kernel_->vertices()` visits the slots `0 … n-1` that are not deleted when the
+/-- impl.hh:59-63.  `kernel_->vertices()` visits the slots `0 … n-1` that are not deleted when the
     iterator reaches them; `n` is fixed (deferred mode: no slot disappears). -/
 def markedVerts (k : Kernel) : Kernel :=
   (List.range k.nV).foldl (fun k v => if !k.vDeleted v && markedV k v then k.deleteVertex v else k) k
-/-- impl.hh:63-67 -/
+/-- impl.hh:64-68 -/
 def markedEdges (k : Kernel) : Kernel :=
   (List.range k.nE).foldl (fun k e => if !k.eDeleted e && markedE k e then k.deleteEdge e else k) k
-/-- impl.hh:68-72 -/
+/-- impl.hh:69-73 -/
 def markedFaces (k : Kernel) : Kernel :=
   (List.range k.nF).foldl (fun k f => if !k.fDeleted f && markedF k f then k.deleteFace f else k) k
-/-- impl.hh:73-77 -/
+/-- impl.hh:74-78 -/
 def markedCells (k : Kernel) : Kernel :=
   (List.range k.nC).foldl (fun k c => if !k.cDeleted c && markedC k c then k.deleteCell c else k) k
 
 /-- TopologyKernel.hh:899-904 -/
 def enableAllBU (k : Kernel) : Kernel := ((k.enableVBU true).enableEBU true).enableFBU true
 
-/-- impl.hh:82-86: faces none of whose halffaces has an incident cell (the two `continue`s) -/
+/-- impl.hh:83-87: faces none of whose halffaces has an incident cell (the two `continue`s) -/
 def manifoldFaces (k : Kernel) : Kernel :=
   (List.range k.nF).foldl (fun k f =>
     if !k.fDeleted f && (k.cellOf (heOf f 0)).isNone && (k.cellOf (heOf f 1)).isNone then k.deleteFace f else k) k
-/-- impl.hh:87-91: `valence(eh)` = size of the halfface list of halfedge 0 (TopologyKernel.hh:719-724) -/
+/-- impl.hh:88-92: `valence(eh)` = size of the halfface list of halfedge 0 (TopologyKernel.hh:719-724) -/
 def manifoldEdges (k : Kernel) : Kernel :=
   (List.range k.nE).foldl (fun k e =>
     if !k.eDeleted e && (k.hfsOf (heOf e 0)).length == 0 then k.deleteEdge e else k) k
-/-- impl.hh:92-96: `valence(vh)` = number of outgoing halfedges (TopologyKernel.hh:711-716) -/
+/-- impl.hh:93-97: `valence(vh)` = number of outgoing halfedges (TopologyKernel.hh:711-716) -/
 def manifoldVerts (k : Kernel) : Kernel :=
   (List.range k.nV).foldl (fun k v =>
     if !k.vDeleted v && (k.outOf v).length == 0 then k.deleteVertex v else k) k
 
-/-- impl.hh:56-98: everything before the collection -/
+/-- impl.hh:57-98: everything before the collection -/
 def markPhase (k : Kernel) (man : Bool) : Kernel :=
   let k := k.enableDeferred true
   let k := markedCells (markedFaces (markedEdges (markedVerts k)))
@@ -98,7 +99,7 @@ def tmpC : String := "\x01old_ch"
 def idxCol (key : String) (n : Nat) : Col :=
   { key := key, dflt := 0, vals := (List.range n).map Int.ofNat }
 
-/-- impl.hh:109-116 -/
+/-- impl.hh:109-116: `request_*_property<int>()`, filled with the current indices -/
 def addTmp (k : Kernel) : Kernel :=
   { k with props := { k.props with v := k.props.v ++ [idxCol tmpV k.nV], he := k.props.he ++ [idxCol tmpHE k.nHE],
                                    hf := k.props.hf ++ [idxCol tmpHF k.nHF], c := k.props.c ++ [idxCol tmpC k.nC] } }
@@ -120,7 +121,7 @@ def scatter (n : Nat) (old : List Int) : List (Option Nat) × Bool :=
     if p.1 < 0 || p.1.toNat ≥ n then (acc.1, true) else (acc.1.set p.1.toNat (some p.2), acc.2))
     (List.replicate n none, false)
 
-/-- impl.hh:128-131: `if (h->is_valid()) *h = new_x[h->idx()]` (unchecked read) -/
+/-- impl.hh:130-133: `if (h->is_valid()) *h = new_x[h->idx()]` (unchecked read) -/
 def remap (new : List (Option Nat)) (t : List Int) : List Int × Bool :=
   t.foldl (fun (acc : List Int × Bool) h =>
     if h < 0 then (acc.1 ++ [h], acc.2)
@@ -139,7 +140,7 @@ structure Result where
   newC : List (Option Nat) := []
 deriving Repr, Inhabited
 
-/-- impl.hh:45-137 -/
+/-- impl.hh:45-140 -/
 def statusGC (k0 : Kernel) (man : Bool) (t : Tracked) : Result :=
   let dfr := k0.deferred
   let k := markPhase k0 man
@@ -160,7 +161,7 @@ def statusGC (k0 : Kernel) (man : Bool) (t : Tracked) : Result :=
   else
     { k := (k.collectGarbage).enableDeferred dfr, t := t }
 
-/-- StatusAttrib.cc:146-153: the overload without handle containers passes four empty vectors -/
+/-- StatusAttrib.cc:147-154: the overload without handle containers passes four empty vectors -/
 def statusGCPlain (k0 : Kernel) (man : Bool) : Kernel := (statusGC k0 man {}).k
 
 end OVM.Status
